@@ -1,6 +1,7 @@
 import NutilsVerif.Model.C02
 import NutilsVerif.Proofs.C02Core
 import NutilsVerif.Proofs.C02Check
+import NutilsVerif.Proofs.C02Block
 /-!
 # C02 — optimised code generation is a faithful translation: property theorems
 
@@ -162,5 +163,39 @@ example : verdict (checkScript ["numpy", "a", "n"]
     [.alloc "v0" ["numpy"], .assign "r" ["n"],
      .loop "i" ["r"] [.assign "s" ["i"], .assign "t" ["i"], .assign "v1" ["a", "i"], .write "v0" ["slice(s, t)"] ["s", "t", "v1"], .use ["v0"]]])
     = "read-uninitialised:v0" := by decide
+
+/-! ### statement placement: block ids -/
+
+/-- **Block ids (`get_block_id`).**  The block in which an evaluable's statement is placed — the maximum, in Python's
+tuple order, of the blocks of its dependencies — is not before the block of any dependency, and it is the block of one
+of the dependencies (so it exists).  Together with `block_execution_order` (blocks run in increasing tuple order) and
+the scope assertion of `get_block_id` (`scopeOK`, re-checked by the harness on every block id the real code
+computes): a statement runs after the statements that produce its operands, inside the loops they live in. -/
+theorem blockid_order (deps : List BlockId) :
+    (∀ d, d ∈ deps → lexLt (blockOf deps) d = false) ∧ (deps ≠ [] → blockOf deps ∈ deps) := by
+  cases deps with
+  | nil => exact And.intro (fun _ h => nomatch h) (fun h => absurd rfl h)
+  | cons d ds =>
+    simp only [blockOf]
+    obtain ⟨h1, h2⟩ := foldl_bmax_ge ds d
+    refine ⟨?_, fun _ => ?_⟩
+    · intro x hx
+      cases hx with
+      | head => exact h1
+      | tail _ h => exact h2 x h
+    · rcases foldl_bmax_mem ds d with h | h
+      · rw [h]; exact List.mem_cons_self ..
+      · exact List.mem_cons_of_mem _ h
+
+/-- **Assembly of the blocks (`compile()`, "generate loops and merge loop blocks").**  For every tree of loops, the
+block ids listed in the order in which the assembled script executes them (`(p,0)`, the body of loop `(p,0)`, `(p,1)`,
+the body of loop `(p,1)`, …) are strictly increasing in Python's tuple order, and every block below prefix `p` has an id
+that extends `p`: the block `(l₁,…,lₘ,k)` sits inside exactly the loops `(l₁)`, `(l₁,l₂)`, …, `(l₁,…,lₘ)`. -/
+theorem block_execution_order (t : LoopTree) (p : List Nat) :
+    (flatIds t p).Pairwise (fun a b => lexLt a b = true) ∧ ∀ id, id ∈ flatIds t p → ∃ k r, id = p ++ k :: r :=
+  ⟨flatIds_sorted t p, fun id h => by obtain ⟨k, r, e, _⟩ := flatIds_under t p id h; exact ⟨k, r, e⟩⟩
+
+/-- the documented example of `compile()`: two nested loops -/
+example : flatIds (.node [.node [.node []]]) [] = [[0], [0, 0], [0, 0, 0], [0, 1], [1]] := by decide
 
 end NutilsVerif.C02
